@@ -229,6 +229,23 @@ example : ∀ op ∈ exCircuit, OpOK (1 + 1) 1 op := by
       Or.inl rfl, ⟨by norm_num, by norm_num⟩, trivial⟩
   · exact ⟨⟨by decide, fun _ => by decide, fun _ => by decide⟩, Or.inr rfl, trivial, trivial⟩
 
+example : ∀ op ∈ exCircuit, Supported op := by
+  intro op h
+  simp only [exCircuit, List.mem_cons, List.not_mem_nil, or_false] at h
+  rcases h with rfl | rfl
+  · exact ⟨Or.inl rfl, rfl, fun _ => rfl⟩
+  · exact ⟨Or.inr rfl, rfl, fun _ => rfl⟩
+
+example : ∀ op ∈ exCircuit, Graphiq.MixDM.LossLe1 op.n0 ∧ Graphiq.MixDM.LossLe1 op.n1 := by
+  intro op h
+  simp only [exCircuit, List.mem_cons, List.not_mem_nil, or_false] at h
+  rcases h with rfl | rfl
+  · exact ⟨(by intro r a e; cases e), (by intro r a e; cases e)⟩
+  · refine ⟨(by intro r a e; cases e), ?_⟩
+    intro r a e
+    injection e with e1 _
+    rw [← e1]; norm_num
+
 /-- both compilers return on it: four branches, trace `3/4`, and (as the theorem says) equal matrices -/
 example :
     (match compileDM true 1 1 0 true exCircuit, compileStab true 1 1 0 true exCircuit with
@@ -491,6 +508,23 @@ example : ∀ op ∈ exMeasCircuit, OpOK2 (1 + 1) 1 op := by
   · exact .meas (Or.inl (Or.inl rfl)) ⟨by decide, fun h => by simp [Kind.isCtrlPair, Kind.isClassicalCtrl] at h,
       fun h => by simp [Kind.isCtrlPair] at h⟩ rfl rfl
   · exact .meas (Or.inl (Or.inr (Or.inl rfl))) ⟨by decide, fun _ => by decide, fun h => by simp [Kind.isCtrlPair] at h⟩ rfl rfl
+
+example : ∀ op ∈ exMeasCircuit, OpRuns2 (1 + 1) 1 op := by
+  intro op h
+  simp only [exMeasCircuit, exCircuit, List.cons_append, List.nil_append, List.mem_cons, List.not_mem_nil, or_false] at h
+  rcases h with rfl | rfl | rfl | rfl | rfl | rfl
+  · exact .unitary ⟨⟨⟨by decide, fun h => by simp [Kind.isCtrlPair, Kind.isClassicalCtrl] at h,
+      fun h => by simp [Kind.isCtrlPair] at h⟩, Or.inl rfl, ⟨by norm_num, by norm_num⟩, trivial⟩, by simp, rfl, fun _ => rfl,
+      trivial, fun _ => trivial⟩
+  · exact .unitary ⟨⟨⟨by decide, fun _ => by decide, fun _ => by decide⟩, Or.inr rfl, trivial, trivial⟩, by simp, rfl,
+      fun _ => rfl, trivial, fun _ => trivial⟩
+  · exact .meas (Or.inr (Or.inr (Or.inr rfl))) ⟨by decide, fun _ => by decide, fun h => by simp [Kind.isCtrlPair] at h⟩ rfl rfl
+  · exact .unitary ⟨⟨⟨by decide, fun h => by simp [Kind.isCtrlPair, Kind.isClassicalCtrl] at h,
+      fun h => by simp [Kind.isCtrlPair] at h⟩, Or.inl rfl, ⟨by norm_num, by norm_num⟩, trivial⟩, by simp, rfl, fun _ => rfl,
+      trivial, fun _ => trivial⟩
+  · exact .meas (Or.inl rfl) ⟨by decide, fun h => by simp [Kind.isCtrlPair, Kind.isClassicalCtrl] at h,
+      fun h => by simp [Kind.isCtrlPair] at h⟩ rfl rfl
+  · exact .meas (Or.inr (Or.inl rfl)) ⟨by decide, fun _ => by decide, fun h => by simp [Kind.isCtrlPair] at h⟩ rfl rfl
 
 /-- on it both compilers return (six branches), the flag is off, the weight is `3/4` (the measurements happen after a photon
     loss), and — as the theorem says — the matrices agree -/
